@@ -119,6 +119,50 @@ def run_template(host, tokens, with_snapshot):
         rg.close()
 
 
+BIG_HOST = '''
+def crowded(a):
+    name = 'bob'
+    big = {('k%d' % i): [i] for i in range(700)}
+    return a  # TP:crowded
+'''
+
+
+def big_frame_leg(c, wd):
+    """A field is replaced by the text of its value whatever the size of the frame: also when the variable budget
+    of the snapshot is already used up when the field is evaluated."""
+    host = R.write_host(wd, BIG_HOST)
+    mod, path, marks = host
+    base = path.rsplit('/', 1)[-1]
+    for template, want, with_snapshot in (('n={name} u={name.upper()} s={a + 1}', '[deep] n=bob u=BOB s=10', True),
+                                          ('{len(big)} {name} {name * 2}', '[deep] 700 bob bobbob', True),
+                                          ('{big} {name.upper()}', None, False)):
+        logger = R.role_plugin('lg', {'log'})
+        rg = R.Rig(plugins=[logger])
+        try:
+            args = {'log_msg': template}
+            if not with_snapshot:
+                args['snapshot'] = 'no_collect'
+            rg.install([{'id': 'tp-big', 'path': base, 'line': marks['crowded'], 'args': args}])
+            res = rg.run(mod.crowded, 9, only_file=path)
+            logs = [c_ for c_ in logger.calls if c_[0] == 'log']
+            bad = None
+            if res != ('ok', 9) or rg.escaped or len(logs) != 1:
+                bad = 'host changed / %d log calls' % len(logs)
+            elif want is not None and logs[0][1] != want:
+                bad = 'message %r, expected %r' % (logs[0][1][:120], want)
+            elif want is None and not logs[0][1].endswith(' BOB'):
+                bad = 'message ends %r, expected the text of name.upper()' % logs[0][1][-40:]
+            c.traces_validated += 1
+            c.note_case(key=('big-frame', template), nontrivial=True)
+            if bad:
+                p_ = c.save_replay({'direction': 'S2C', 'module': 'LogTemplate', 'kind': 'big-frame', 'template': template,
+                                    'what': bad})
+                c.violation('template %r on a frame with >1000 variables: %s' % (template, bad), p_)
+        finally:
+            rg.close()
+    sys.modules.pop(mod.__name__, None)
+
+
 def run(c):
     quick = c.tier == 'quick'
     rng = random.Random(c.seed)
@@ -170,6 +214,7 @@ def run(c):
                 break
         if shown >= 8:
             break
+    big_frame_leg(c, wd)
     c.sample({'direction': 'S2C', 'module': 'LogTemplate', 'tokens': templates[0],
               'template': ''.join(TEXT[t] for t in templates[0])})
     sys.modules.pop(host[0].__name__, None)
